@@ -29,8 +29,10 @@ type ScriptReader struct {
 	Injected error // returned for Err == "X"
 	After    error // error once data and script are exhausted (default io.EOF)
 
-	pos   int
-	step  int
+	pos         int
+	step        int
+	stepLeft    int
+	stepStarted bool
 	Calls []Call_
 	dead  error
 }
@@ -51,22 +53,37 @@ func (r *ScriptReader) Read(p []byte) (n int, err error) {
 	}
 	left := len(r.Data) - r.pos
 	if r.step < len(r.Steps) {
-		s := r.Steps[r.step]
-		r.step++
-		n = s.N
+		s := &r.Steps[r.step]
+		if !r.stepStarted {
+			r.stepLeft = s.N
+			if r.stepLeft > left {
+				r.stepLeft = left
+			}
+			if r.stepLeft < 0 {
+				r.stepLeft = 0
+			}
+			r.stepStarted = true
+		}
+		n = r.stepLeft
 		if n > len(p) {
 			n = len(p)
 		}
-		if n > left {
-			n = left
-		}
-		if n < 0 {
-			n = 0
-		}
 		copy(p, r.Data[r.pos:r.pos+n])
 		r.pos += n
+		r.stepLeft -= n
+		if r.stepLeft > 0 {
+			// the caller's buffer was smaller than the step: the rest of the
+			// step (and its error, if any) comes with a later Read
+			return n, nil
+		}
+		r.step++
+		r.stepStarted = false
 		switch s.Err {
 		case "EOF":
+			if r.pos < len(r.Data) {
+				// io.EOF is only legal at the end of the stream
+				return n, nil
+			}
 			r.dead = io.EOF
 			return n, io.EOF
 		case "X":
